@@ -1,3 +1,4 @@
+mod cfgbuild;
 mod routing;
 mod util;
 
@@ -10,6 +11,7 @@ fn main() {
     let rest = &args[2..];
     match args[1].as_str() {
         "routing" => routing::main(rest),
+        "cfgbuild" => cfgbuild::main(rest),
         other => {
             eprintln!("unknown command {}", other);
             std::process::exit(2);
